@@ -344,7 +344,8 @@ func bufScalar(kind int) Scalar {
 
 type tracked struct {
 	name, role string
-	snap       func() []float64
+	snap       func() []float64 // observable state
+	rep        func() []float64 // representation (sparse private state); may be nil
 }
 
 // bld collects the objects of one call and the call itself.
@@ -358,13 +359,13 @@ type bld struct {
 func (b *bld) bit(i int) bool { return b.s.Mask&(1<<uint(i)) != 0 }
 
 func (b *bld) track(name, role string, snap func() []float64) {
-	b.objs = append(b.objs, tracked{name, role, snap})
+	b.objs = append(b.objs, tracked{name: name, role: role, snap: snap})
 }
 func (b *bld) mat(name, role string, m ConstMatrix) {
-	b.track(name, role, func() []float64 { return snapMatrix(nil, m) })
+	b.objs = append(b.objs, tracked{name, role, func() []float64 { return snapMatrix(nil, m) }, func() []float64 { return repMatrix(m) }})
 }
 func (b *bld) vec(name, role string, v ConstVector) {
-	b.track(name, role, func() []float64 { return snapVector(nil, v) })
+	b.objs = append(b.objs, tracked{name, role, func() []float64 { return snapVector(nil, v) }, func() []float64 { return repVector(v) }})
 }
 func (b *bld) sca(name, role string, x ConstScalar) {
 	b.track(name, role, func() []float64 { return snapScalar(nil, x) })
@@ -387,6 +388,29 @@ func (b *bld) bools(name, role string, p []bool) {
 		}
 		return r
 	})
+}
+
+// inMat builds a main input matrix.  A sparse input optionally carries an
+// explicitly stored zero: the caller touched the absent entry "mtouch" with At.
+func (b *bld) inMat(kind, rows, cols int, name string) Matrix {
+	v := b.s.vals(name)
+	t := b.s.int1("mtouch", -1)
+	if kind != 2 || t < 0 || t >= len(v) {
+		return mkMat(kind, rows, cols, v)
+	}
+	// first zero entry at or (cyclically) after t; the values are not altered
+	z := -1
+	for k := 0; k < len(v); k++ {
+		if v[(t+k)%len(v)] == 0 {
+			z = (t + k) % len(v)
+			break
+		}
+	}
+	m := mkMat(kind, rows, cols, v)
+	if z >= 0 {
+		m.At(z/cols, z%cols)
+	}
+	return m
 }
 
 // ---------------------------------------------------------------- execution
@@ -469,6 +493,9 @@ func execute(s *Spec) (c Case, err error) {
 	c.Objs = make([]Obj, len(b.objs))
 	for i, t := range b.objs {
 		c.Objs[i] = Obj{Name: t.name, Role: t.role, Before: t.snap()}
+		if t.rep != nil {
+			c.Objs[i].RepBefore = t.rep()
+		}
 	}
 	c.Outcome, c.Msg = guarded(b.run)
 	if c.Outcome == "timeout" {
@@ -478,6 +505,9 @@ func execute(s *Spec) (c Case, err error) {
 	}
 	for i, t := range b.objs {
 		c.Objs[i].After = t.snap()
+		if t.rep != nil {
+			c.Objs[i].RepAfter = t.rep()
+		}
 	}
 	if b.post != nil {
 		var extra []Obj
@@ -490,8 +520,13 @@ func execute(s *Spec) (c Case, err error) {
 		c.Objs = append(c.Objs, extra...)
 	}
 	for _, o := range c.Objs {
-		if o.Role == "input" && !sameBits(o.Before, o.After) {
+		if o.Role != "input" {
+			continue
+		}
+		if !sameBits(o.Before, o.After) {
 			c.Changed = append(c.Changed, o.Name)
+		} else if !sameBits(o.RepBefore, o.RepAfter) {
+			c.RepChanged = append(c.RepChanged, o.Name)
 		}
 	}
 	return c, nil
